@@ -141,6 +141,147 @@ pub fn spawn_second_connection<'a>(ex: &mut Exec<'a>, world: &World) -> Rc<RefCe
     res
 }
 
+/// What a connection whose two halves are driven by two different tasks found out about itself.
+#[derive(Default)]
+pub struct DuplexResult {
+    pub got: Vec<Res>,
+    pub expected: Vec<Res>,
+    pub reader_done: bool,
+    /// JSON values of the messages the writer task submitted successfully, in order
+    pub sent: Vec<serde_json::Value>,
+    pub writer_done: bool,
+    pub write_error: Option<String>,
+    pub wr_pipe: usize,
+}
+
+/// One more connection, split into its halves at once: a reader task receives a scripted peer's
+/// frames on the read half (abandoning pending receives when `cancel` is set) while a writer task
+/// sends and pipelines messages on the write half. The executor interleaves the two tasks at
+/// every await point, so one half is regularly in the middle of an operation while the other one
+/// starts, finishes or is dropped. Each direction is judged on its own.
+pub fn spawn_split_duplex<'a>(ex: &mut Exec<'a>, world: &World, cancel: bool) -> Rc<RefCell<DuplexResult>> {
+    let res: Rc<RefCell<DuplexResult>> = Rc::new(RefCell::new(DuplexResult::default()));
+    let (rd, wr, kinds, n, reader_stays, writer_stays) = {
+        let mut w = world.borrow_mut();
+        let script = frames::gen_script(&mut w.tape, 6);
+        let stream = script.stream();
+        let rd = w.scripted_pipe(&stream, true);
+        let wr = w.sink_pipe();
+        w.step_cap += 60 * (stream.len() as u64 + 4_000);
+        w.stat("runs_with_a_connection_whose_halves_are_driven_by_two_tasks");
+        let mut r = res.borrow_mut();
+        r.expected = script.expected();
+        r.wr_pipe = wr;
+        (rd, wr, script.kinds.clone(), script.frames.len(), w.tape.draw(2) == 1, w.tape.draw(2) == 1)
+    };
+    let conn = Connection::new(W::socket(world, rd, wr));
+    let (mut rh, mut wh) = conn.split();
+    let (world_r, res_r) = (world.clone(), res.clone());
+    ex.spawn(async move {
+        let mut i = 0;
+        while i < n {
+            let r = if cancel {
+                match crate::world::cancellable(&world_r, frames::recv_kind_read(&mut rh, kinds[i])).await {
+                    Some(r) => r,
+                    None => continue,
+                }
+            } else {
+                frames::recv_kind_read(&mut rh, kinds[i]).await
+            };
+            res_r.borrow_mut().got.push(r);
+            i += 1;
+        }
+        res_r.borrow_mut().reader_done = true;
+        if reader_stays {
+            std::future::pending::<()>().await;
+        }
+        // (otherwise the read half is dropped here, possibly while the write half is mid-flush)
+    });
+    let (world_w, res_w) = (world.clone(), res.clone());
+    ex.spawn(async move {
+        let m = 1 + world_w.borrow_mut().tape.draw(6);
+        for _ in 0..m {
+            let (op, lens) = {
+                let mut w = world_w.borrow_mut();
+                let op = w.tape.draw(3);
+                let k = if op == 2 { 2 + w.tape.draw(3) } else { 1 };
+                let lens: Vec<usize> = (0..k).map(|_| match w.tape.draw(3) { 0 => w.tape.draw(12), 1 => 180 + w.tape.draw(120), _ => w.tape.draw(700) }).collect();
+                (op, lens)
+            };
+            let calls: Vec<zlink_core::Call<Note>> = lens.iter().map(|l| zlink_core::Call::new(Note { method: "org.example.Note", parameters: NoteP { text: "w".repeat(*l) } })).collect();
+            let r = if op == 0 {
+                wh.send_call(&calls[0]).await
+            } else {
+                let mut e = Ok(());
+                for c in &calls {
+                    e = wh.enqueue_call(c);
+                    if e.is_err() {
+                        break;
+                    }
+                }
+                match e {
+                    Ok(()) => wh.flush().await,
+                    Err(e) => Err(e),
+                }
+            };
+            match r {
+                Ok(()) => {
+                    let mut rr = res_w.borrow_mut();
+                    for c in &calls {
+                        rr.sent.push(serde_json::to_value(c).unwrap());
+                    }
+                }
+                Err(e) => {
+                    res_w.borrow_mut().write_error = Some(format!("{e:?}"));
+                    return;
+                }
+            }
+            let pause = world_w.borrow_mut().tape.draw(3);
+            crate::world::yield_n(&world_w, pause).await;
+        }
+        res_w.borrow_mut().writer_done = true;
+        if writer_stays {
+            std::future::pending::<()>().await;
+        }
+    });
+    res
+}
+
+/// Verdict on the split connection (None = fine).
+pub fn judge_duplex(id: &str, world: &World, r: &DuplexResult) -> Option<(String, String)> {
+    for (i, want) in r.expected.iter().enumerate() {
+        match r.got.get(i) {
+            Some(g) if g == want => {}
+            Some(g) => return Some((format!("{id}/split-connection-result-mismatch"), format!("a connection whose halves are driven by two tasks: frame {i} on its read half: expected {want:?}, got {g:?}"))),
+            None => return Some((format!("{id}/split-connection-missing-result"), format!("a connection whose halves are driven by two tasks: its read half delivered only {} of {} frames", r.got.len(), r.expected.len()))),
+        }
+    }
+    if let Some(e) = &r.write_error {
+        return Some((format!("{id}/split-connection-send-failed"), format!("a connection whose halves are driven by two tasks: a send on its write half failed although the transport accepts every write: {e}")));
+    }
+    if !r.writer_done {
+        return Some((format!("{id}/split-connection-writer-stuck"), "a connection whose halves are driven by two tasks: the writer task did not finish although the transport accepts every write".into()));
+    }
+    let w = world.borrow();
+    let log = &w.pipes[r.wr_pipe].log;
+    let mut frames_out: Vec<serde_json::Value> = Vec::new();
+    if !log.is_empty() {
+        if log.last() != Some(&0) {
+            return Some((format!("{id}/split-connection-bad-framing"), "a connection whose halves are driven by two tasks: what its write half wrote does not end with a terminator".into()));
+        }
+        for f in log[..log.len() - 1].split(|b| *b == 0) {
+            match serde_json::from_slice::<serde_json::Value>(f) {
+                Ok(v) => frames_out.push(v),
+                Err(e) => return Some((format!("{id}/split-connection-bad-framing"), format!("a connection whose halves are driven by two tasks: its write half wrote a frame that is not one JSON document ({e})"))),
+            }
+        }
+    }
+    if frames_out != r.sent {
+        return Some((format!("{id}/split-connection-bad-framing"), format!("a connection whose halves are driven by two tasks: its write half was given {} messages, the transport saw {} frames (or other content)", r.sent.len(), frames_out.len())));
+    }
+    None
+}
+
 #[derive(Debug, serde::Serialize)]
 struct Note {
     method: &'static str,
